@@ -198,7 +198,6 @@ func checkC13(c *Ctx, k WKCase) *Verdict {
 		v.Discard = "empty-case"
 		return v
 	}
-	inj := &w.Files[0].Injectors[0]
 	p, d, det := newWirePair(c, w)
 	defer p.Close()
 	if d != "" {
@@ -252,72 +251,81 @@ func checkC13(c *Ctx, k WKCase) *Verdict {
 		e := an.Errors[0]
 		return fail("no-injector:does-not-compile", errClass(e.Msg), "the migrated package does not type-check: %v", an.Errors)
 	}
-	fn := an.Funcs[inj.Name]
-	if fn == nil || fn.Sig == nil {
-		return fail("no-injector:missing", inj.Name, "no function %s was generated from the migrated file", inj.Name)
-	}
-	// adapters
+	injs := w.Files[0].Injectors
+	v.Features["second-injector"] = len(injs) >= 2
+	var adsA, adsB []mat.AdapterSpec
 	bb := &Built{ctx: c, Case: w.Spec, L: p.B, An: an}
 	bb.helperT = helperTypes(w.Spec, an)
-	adB, err := bb.adapter(inj.Name)
-	if err != nil {
-		return fail("signature", "parameter type", "migrated injector has a parameter/result outside the original universe: %v", err)
-	}
-	// parameter rule: exactly the original argument types that some invoked provider uses
-	unused := map[spec.TypeID]bool{}
-	for _, u := range inj.Unused {
-		unused[u] = true
-	}
-	var want []int
-	for _, a := range inj.Args {
-		if !unused[a] {
-			want = append(want, int(a))
+	for ii := range injs {
+		inj := &injs[ii]
+		fn := an.Funcs[inj.Name]
+		if fn == nil || fn.Sig == nil {
+			return fail("no-injector:missing", inj.Name, "no function %s was generated from the migrated file", inj.Name)
 		}
-	}
-	var got []int
-	for _, a := range adB.Params {
-		got = append(got, int(a))
-	}
-	sort.Ints(want)
-	sort.Ints(got)
-	if fmt.Sprint(want) != fmt.Sprint(got) {
-		var ws, gs []string
-		for _, a := range want {
-			ws = append(ws, w.Spec.Describe(spec.TypeID(a)))
+		adB, err := bb.adapter(inj.Name)
+		if err != nil {
+			return fail("signature", "parameter type", "migrated injector %s has a parameter/result outside the original universe: %v", inj.Name, err)
 		}
-		for _, a := range got {
-			gs = append(gs, w.Spec.Describe(spec.TypeID(a)))
+		// parameter rule: exactly the original argument types that some invoked provider uses
+		unused := map[spec.TypeID]bool{}
+		for _, u := range inj.Unused {
+			unused[u] = true
 		}
-		return fail("signature:params", fmt.Sprintf("want(%s) got(%s)", strings.Join(ws, ","), strings.Join(gs, ",")), "migrated injector takes (%s); the wire injector's used argument types are (%s)", strings.Join(gs, ", "), strings.Join(ws, ", "))
+		var want []int
+		for _, a := range inj.Args {
+			if !unused[a] {
+				want = append(want, int(a))
+			}
+		}
+		var got []int
+		for _, a := range adB.Params {
+			got = append(got, int(a))
+		}
+		sort.Ints(want)
+		sort.Ints(got)
+		if fmt.Sprint(want) != fmt.Sprint(got) {
+			var ws, gs []string
+			for _, a := range want {
+				ws = append(ws, w.Spec.Describe(spec.TypeID(a)))
+			}
+			for _, a := range got {
+				gs = append(gs, w.Spec.Describe(spec.TypeID(a)))
+			}
+			return fail("signature:params", fmt.Sprintf("want(%s) got(%s)", strings.Join(ws, ","), strings.Join(gs, ",")), "migrated injector %s takes (%s); the wire injector's used argument types are (%s)", inj.Name, strings.Join(gs, ", "), strings.Join(ws, ", "))
+		}
+		if adB.Result != inj.Want {
+			return fail("signature:result", "result", "migrated injector %s returns %s, wire injector returns %s", inj.Name, w.Spec.Describe(adB.Result), w.Spec.Describe(inj.Want))
+		}
+		adsB = append(adsB, *adB)
+		adsA = append(adsA, mat.AdapterSpec{Name: inj.Name, Params: inj.Args, Result: inj.Want, HasErr: inj.Err})
 	}
-	if adB.Result != inj.Want {
-		return fail("signature:result", "result", "migrated injector returns %s, wire injector returns %s", w.Spec.Describe(adB.Result), w.Spec.Describe(inj.Want))
-	}
-	adA := mat.AdapterSpec{Name: inj.Name, Params: inj.Args, Result: inj.Want, HasErr: inj.Err}
 	// build both inner binaries
-	binA, errA := buildInnerAt(c, w.Spec, p.A, []mat.AdapterSpec{adA}, "a")
+	binA, errA := buildInnerAt(c, w.Spec, p.A, adsA, "a")
 	if errA != nil {
 		v.Discard, v.Detail = "wire-side-build-error", errA.Error()
 		return v
 	}
-	binB, errB := buildInnerAt(c, w.Spec, p.B, []mat.AdapterSpec{*adB}, "b")
+	binB, errB := buildInnerAt(c, w.Spec, p.B, adsB, "b")
 	if errB != nil {
 		return fail("no-injector:does-not-compile", "go build", "the migrated package does not build: %v", errB)
 	}
-	// plans: two argument vectors fault-free, every fallible provider failing alone
+	// plans per injector: two argument vectors fault-free, every fallible provider failing alone
 	var plans []*Plan
-	args := func(salt uint32) map[string]uint32 {
-		m := map[string]uint32{"ctx": 1}
-		for _, a := range inj.Args {
-			m[fmt.Sprint(int(a))] = spec.Mix(uint32(a)+91, salt)
+	for ii := range injs {
+		inj := &injs[ii]
+		args := func(salt uint32) map[string]uint32 {
+			m := map[string]uint32{"ctx": 1}
+			for _, a := range inj.Args {
+				m[fmt.Sprint(int(a))] = spec.Mix(uint32(a)+91, salt)
+			}
+			return m
 		}
-		return m
-	}
-	plans = append(plans, &Plan{Inj: inj.Name, Mode: "plain", CancelAt: -2, Args: args(k.Salt), Repeat: 1})
-	plans = append(plans, &Plan{Inj: inj.Name, Mode: "plain", CancelAt: -2, Args: args(k.Salt + 1), Repeat: 1})
-	for i := range w.Spec.Provs {
-		if w.Spec.Provs[i].Err {
-			plans = append(plans, &Plan{Inj: inj.Name, Mode: "plain", CancelAt: -2, Args: args(k.Salt), Repeat: 1, Fail: []int{w.Spec.Provs[i].ID}})
+		plans = append(plans, &Plan{Inj: inj.Name, Mode: "plain", CancelAt: -2, Args: args(k.Salt), Repeat: 1})
+		plans = append(plans, &Plan{Inj: inj.Name, Mode: "plain", CancelAt: -2, Args: args(k.Salt + 1), Repeat: 1})
+		for i := range w.Spec.Provs {
+			if w.Spec.Provs[i].Err {
+				plans = append(plans, &Plan{Inj: inj.Name, Mode: "plain", CancelAt: -2, Args: args(k.Salt), Repeat: 1, Fail: []int{w.Spec.Provs[i].ID}})
+			}
 		}
 	}
 	ba := &Built{ctx: c, Case: w.Spec, L: &mat.Layout{Root: filepath.Join(p.root, "a"), AppDir: p.A.AppDir}}
@@ -340,7 +348,7 @@ func checkC13(c *Ctx, k WKCase) *Verdict {
 			break
 		}
 		a, b := exA[i], exB[i]
-		site := fmt.Sprintf("plan %d fail=%v", a.Plan, plans[a.Plan].Fail)
+		site := fmt.Sprintf("%s plan %d fail=%v", a.Inj, a.Plan, plans[a.Plan].Fail)
 		if a.Panic != "" || a.Crashed {
 			v.Discard, v.Detail = "wire-side-panic", a.Panic
 			return v
